@@ -134,6 +134,7 @@ class AbsNearEa(Constructor):
     tokens = [Imm16Token]
 
 
+# All addressing modes:
 ea_modes = (
     DataRegEa,
     AddressRegEa,
@@ -143,6 +144,24 @@ ea_modes = (
     PcRelEa,
     AbsNearEa,
 )
+
+# Addressing categories of the programmers reference manual (table 2-4).
+# Data addressing modes (all but address register direct). Byte sized
+# operations cannot use an address register either:
+data_ea_modes = (
+    DataRegEa,
+    AddressEa,
+    AddressOffsetEa,
+    ImmediateEa,
+    PcRelEa,
+    AbsNearEa,
+)
+
+# Data alterable addressing modes (operand is written):
+data_alterable_ea_modes = (DataRegEa, AddressEa, AddressOffsetEa, AbsNearEa)
+
+# Control addressing modes (operand is a memory location):
+control_ea_modes = (AddressEa, AddressOffsetEa, PcRelEa, AbsNearEa)
 
 
 # Sub constructs used as destination operands:
@@ -179,7 +198,7 @@ class M68kInstruction(Instruction):
     isa = m68k_isa
 
 
-def make_ea_dn(mnemonic, opcode, opmode):
+def make_ea_dn(mnemonic, opcode, opmode, modes=ea_modes):
     """Create an instruction with two operands: ea and dn.
 
     The form is a such:
@@ -187,7 +206,7 @@ def make_ea_dn(mnemonic, opcode, opmode):
 
     """
     dn = Operand("dn", DataRegister, read=True, write=True)
-    ea = Operand("ea", ea_modes)
+    ea = Operand("ea", modes)
     syntax = Syntax([mnemonic, " ", ea, ",", " ", dn])
     patterns = {"opcode": opcode, "register": dn, "opmode": opmode}
     members = {
@@ -201,7 +220,7 @@ def make_ea_dn(mnemonic, opcode, opmode):
     return type(class_name, (M68kInstruction,), members)
 
 
-def make_dn_ea(mnemonic, opcode, opmode):
+def make_dn_ea(mnemonic, opcode, opmode, modes=data_alterable_ea_modes):
     """Create an instruction with two operands: dn and ea.
 
     The form is a such:
@@ -209,7 +228,7 @@ def make_dn_ea(mnemonic, opcode, opmode):
 
     """
     dn = Operand("dn", DataRegister, read=True)
-    ea = Operand("ea", ea_modes)
+    ea = Operand("ea", modes)
     syntax = Syntax([mnemonic, " ", dn, ",", " ", ea])
     patterns = {"opcode": opcode, "register": dn, "opmode": opmode}
     members = {
@@ -223,8 +242,8 @@ def make_dn_ea(mnemonic, opcode, opmode):
     return type(class_name, (M68kInstruction,), members)
 
 
-def make_ea(mnemonic, opcode, size):
-    ea = Operand("ea", ea_modes)
+def make_ea(mnemonic, opcode, size, modes=data_alterable_ea_modes):
+    ea = Operand("ea", modes)
     syntax = Syntax([mnemonic, " ", ea])
     patterns = {"opcode2": opcode, "size": size}
     members = {
@@ -265,12 +284,12 @@ def make_jmp(mnemonic, opcode):
 
 
 # Instruction classes:
-Addb = make_ea_dn("addb", 0b1101, opmode=0b000)
+Addb = make_ea_dn("addb", 0b1101, opmode=0b000, modes=data_ea_modes)
 Addw = make_ea_dn("addw", 0b1101, opmode=0b001)
 Addl = make_ea_dn("addl", 0b1101, opmode=0b010)
-Andb = make_ea_dn("andb", 0b1100, opmode=0b000)
-Andw = make_ea_dn("andw", 0b1100, opmode=0b001)
-Andl = make_ea_dn("andl", 0b1100, opmode=0b010)
+Andb = make_ea_dn("andb", 0b1100, opmode=0b000, modes=data_ea_modes)
+Andw = make_ea_dn("andw", 0b1100, opmode=0b001, modes=data_ea_modes)
+Andl = make_ea_dn("andl", 0b1100, opmode=0b010, modes=data_ea_modes)
 
 Bne = make_jmp("bne", 0x66)
 Beq = make_jmp("beq", 0x67)
@@ -280,7 +299,7 @@ Bgt = make_jmp("bgt", 0x6E)
 Ble = make_jmp("ble", 0x6F)
 Bra = make_jmp("bra", 0x60)  # Unconditional branch
 Bsr = make_jmp("bsr", 0x61)  # Branch subroutine
-Cmpb = make_ea_dn("cmpb", 0b1011, opmode=0b000)
+Cmpb = make_ea_dn("cmpb", 0b1011, opmode=0b000, modes=data_ea_modes)
 Cmpw = make_ea_dn("cmpw", 0b1011, opmode=0b001)
 Cmpl = make_ea_dn("cmpl", 0b1011, opmode=0b010)
 Eorb = make_dn_ea("eorb", 0b1011, opmode=0b100)
@@ -292,7 +311,7 @@ class Lea(M68kInstruction):
     """Load effective address"""
 
     dst = Operand("dst", AddressRegister, write=True)
-    ea = Operand("ea", ea_modes)
+    ea = Operand("ea", control_ea_modes)
     syntax = Syntax(["lea", " ", ea, ",", " ", dst])
     patterns = {"opcode": 0x4, "opmode": 0b111, "register": dst}
     tokens = [M68kToken]
@@ -320,7 +339,7 @@ class Moveal(M68kInstruction):
 
 class Moveb(M68kInstruction):
     dst_ea = Operand("dst_ea", dst_ea_modes)
-    ea = Operand("ea", ea_modes)
+    ea = Operand("ea", data_ea_modes)
     syntax = Syntax(["moveb", " ", ea, ",", " ", dst_ea])
     patterns = {"opcode": 0x1}
     tokens = [M68kToken]
@@ -356,14 +375,14 @@ class Moveq(M68kInstruction):
     tokens = [M68kToken]
 
 
-Orb = make_ea_dn("orb", 0b1000, opmode=0b000)
-Orw = make_ea_dn("orw", 0b1000, opmode=0b001)
-Orl = make_ea_dn("orl", 0b1000, opmode=0b010)
-Subb = make_ea_dn("subb", 0b1001, opmode=0b000)
+Orb = make_ea_dn("orb", 0b1000, opmode=0b000, modes=data_ea_modes)
+Orw = make_ea_dn("orw", 0b1000, opmode=0b001, modes=data_ea_modes)
+Orl = make_ea_dn("orl", 0b1000, opmode=0b010, modes=data_ea_modes)
+Subb = make_ea_dn("subb", 0b1001, opmode=0b000, modes=data_ea_modes)
 Subw = make_ea_dn("subw", 0b1001, opmode=0b001)
 Subl = make_ea_dn("subl", 0b1001, opmode=0b010)
 
-Jsr = make_ea("jsr", 0x4E, 2)
+Jsr = make_ea("jsr", 0x4E, 2, modes=control_ea_modes)
 
 Negb = make_ea("negb", 0x44, 0)
 Negw = make_ea("negw", 0x44, 1)
